@@ -759,8 +759,8 @@ def check_C16(chk, tier):
 
 
 # ------------------------------------------------------------------------------------------------ C15 incomplete LU
-def icase(n, pat, colperm=0, permidx=0, tune="t122", symcols=0, milu=0, droprule=9, rowperm=0, trans=0, dropmode=0, nrhs=1, tiny=0):
-    return (n, hex(pat), colperm, permidx) + tuple(T[tune]) + (symcols, milu, droprule, rowperm, trans, dropmode, nrhs) + ((tiny,) if tiny else ())
+def icase(n, pat, colperm=0, permidx=0, tune="t122", symcols=0, milu=0, droprule=9, rowperm=0, trans=0, dropmode=0, nrhs=1, tiny=0, tiny_rc=None):
+    return (n, hex(pat), colperm, permidx) + tuple(T[tune]) + (symcols, milu, droprule, rowperm, trans, dropmode, nrhs) + ((tiny,) if tiny or tiny_rc else ()) + (tuple(tiny_rc) if tiny_rc else ())
 
 
 def check_C15(chk, tier):
@@ -792,6 +792,15 @@ def check_C15(chk, tier):
                     cs.append(icase(n, pat, symcols=0, dropmode=dm, tune=tn, milu=(n + p_) % 4, nrhs=1 + (p_ % 2), trans=p_ % 2, tiny=1 << p_))
                     cs.append(icase(n, pat, symcols=0, dropmode=dm, tune=tn, colperm=4, permidx={3: 3, 4: 9, 5: 33, 6: 153}.get(n, 1), milu=p_ % 4, tiny=1 << p_))
                 if n <= 4: cs.append(icase(n, pat, symcols=1 << p_, dropmode=0, tune="t111")); cs.append(icase(n, pat, symcols=1 << (p_ + 2), dropmode=0, tune="t212", tiny=1 << p_))
+            # the same structure met under a non-involutory caller ordering: A's columns are those of the hole pattern taken in the order the permutation undoes
+            if n >= 4:
+                import itertools
+                ps = list(itertools.permutations(range(n)))
+                for p_ in range(0, n - 2):
+                    for pi in ({4: (9, 16), 5: (33, 70), 6: (153, 500)}.get(n, (1,))):
+                        pc = ps[pi]; inv = [0] * n
+                        for j_ in range(n): inv[pc[j_]] = j_
+                        for tn in ("t111", "t212", "tn1n"): cs.append(icase(n, C.permute_columns(n, C.hole2(n, p_), pc), colperm=4, permidx=pi, symcols=0, dropmode=0, tune=tn, milu=p_ % 4, tiny_rc=(p_ + 2, inv[p_]), nrhs=1 + p_ % 2))
             for j in range(1, n):
                 if n <= 4 and C.structural_rank(n, n, C.hole(n, j)) == n: cs.append(icase(n, C.hole(n, j), symcols=0, dropmode=0, tune="t111", tiny=1 << (j - 1), colperm=4, permidx=3 if n == 3 else 9))
         for n, pat in ((3, 511), (3, C.band(3, 1, 1)), (4, C.band(4, 1, 1)), (5, C.dense(5, 5)), (6, C.band(6, 2, 2))):
